@@ -322,11 +322,20 @@ func main() {
 	mc.Main("C08", mc.Harness{
 		Name: "lru-bfs",
 		Explore: func(r *mc.Run) {
+			hooks := r.Hooks
+			if hooks {
+				// The state hook understands the package's own LRU store only.
+				probe := newInst(&cfg{Limit: 1, Keys: 1, Values: []int{0}}, &cnt)
+				if _, _, _, ok := lruState(probe.ch); !ok {
+					hooks = false
+					r.NotExhaustive("the LRU store is not the structure the state hook reads: histories are enumerated without state merging to a depth bound")
+				}
+			}
 			var cfgs []*cfg
 			unit := func(l, k int, vals []int, sym bool) *cfg {
 				return &cfg{Name: fmt.Sprintf("unit L=%d K=%d sym=%v", l, k, sym), Limit: l, Keys: k, Values: vals, Sym: sym}
 			}
-			if r.Hooks {
+			if hooks {
 				for _, l := range []int{1, 2, 3} {
 					cfgs = append(cfgs, unit(l, l+2, []int{0, 1}, false))
 				}
@@ -350,10 +359,10 @@ func main() {
 			var summary []map[string]any
 			for _, c := range cfgs {
 				depth := 0
-				if !r.Hooks {
+				if !hooks {
 					depth = mc.Pick(r, 5, 6)
 				}
-				res := makeBFS(c, &cnt, r.Hooks, depth).Run(r)
+				res := makeBFS(c, &cnt, hooks, depth).Run(r)
 				summary = append(summary, map[string]any{"config": c.Name, "states": res.States, "transitions": res.Transitions,
 					"depth": res.Depth, "exhaustive": res.Exhaustive, "violating_transitions": res.Violations})
 				fmt.Printf("  %-28s states=%d transitions=%d depth=%d violations=%d exhaustive=%v\n", c.Name, res.States, res.Transitions, res.Depth, res.Violations, res.Exhaustive)
